@@ -228,6 +228,7 @@ pub fn build_space(g: &Grammar, thorough: bool) -> Vec<CDoc> {
     valid.extend(corpus::opt_docs(g, 2));
     valid.extend(corpus::enum_docs(g));
     valid.extend(corpus::same_name_docs(g));
+    valid.extend(corpus::seq_len_docs(g));
     valid.extend(corpus::rich_docs(g));
     if thorough {
         valid.extend(corpus::opt_pair_docs(g, None));
